@@ -269,6 +269,10 @@ func (r *c06Run) event(e byte, conc int, ctx string) (crossed bool, v *c06Verdic
 			crossed = r.m.onFail(1)
 		}
 	}
+	if crossed && r.sc.Schem == "tcp" && !r.released {
+		// tcp probes cannot be held: the checker may already have brought the backend back
+		return crossed, nil
+	}
 	return crossed, r.checkAvail(ctx)
 }
 
@@ -325,7 +329,7 @@ func (r *c06Run) round(ri int, rd c06Round) (done bool, v *c06Verdict) {
 	i := 0
 	for ; i < len(rd.Events) && !crossed; i++ {
 		conc := 0
-		if rd.ConcN > 1 && rd.Events[i] == 'F' && r.m.avail && r.m.f+1 >= r.m.failNum {
+		if rd.ConcN > 1 && r.sc.Schem != "tcp" && rd.Events[i] == 'F' && r.m.avail && r.m.f+1 >= r.m.failNum {
 			conc = rd.ConcN
 			r.class("concurrent-crossing")
 		}
@@ -624,6 +628,7 @@ func c06Gen(rt *rapid.T) c06Scenario {
 			rd.ConcN = rapid.IntRange(2, 8).Draw(rt, l+"-concn")
 		}
 		if sc.Schem == "tcp" {
+			rd.ConcN = 0
 			rd.Script = strings.Repeat("P", sc.SuccNum)
 		} else {
 			rd.Script = c06GenScript(rt, l+"-sc", sc.SuccNum)
